@@ -64,7 +64,7 @@ theorem sendU_ok (c : Card) (f : Bytes) (u : UCmd) (h1 : u.off ≤ 65535) (h2 : 
 
 /-- running the chunk loop over `buf` from `off` writes `buf[off:]` at `off` -/
 theorem chunk_run (c : Card) (lc : Nat) (buf : Bytes) (hlc : 1 ≤ lc ∧ lc ≤ 255 ∧ lc ≤ c.mlc) :
-    ∀ fuel off f, 0 < fuel → buf.length < fuel + off → buf.length ≤ f.length → f.length ≤ 65536 →
+    ∀ fuel off f, 0 < fuel → buf.length < fuel + off → buf.length ≤ f.length → buf.length ≤ 65536 →
       runU c f (chunkCmds lc buf fuel off) = ⟨chunkCmds lc buf fuel off, splice f off (buf.drop off), .ok ()⟩ := by
   intro fuel
   induction fuel with
@@ -82,7 +82,7 @@ theorem chunk_run (c : Card) (lc : Nat) (buf : Bytes) (hlc : 1 ≤ lc ∧ lc ≤
         (by simp only []; omega) (by simp only []; omega)
       rw [runU_cons_ok _ hs]
       have hfl : (splice f off (sliceN buf off (off + lc))).length = f.length := splice_length _ _ _ (by omega)
-      rw [ih (off + min lc (buf.length - off)) _ (by omega) (by omega) (by simp only []; omega) (by simp only []; omega)]
+      rw [ih (off + min lc (buf.length - off)) _ (by omega) (by omega) (by simp only []; omega) h65]
       simp only [Trace.mk.injEq, true_and, and_true]
       rw [← hdl, splice_adj _ _ _ _ (by rw [List.length_drop]; omega)]
       congr 1
